@@ -21,6 +21,8 @@ def enc_abs(v) -> bytes:
         return enc_str(b"o%d" % tok, 0x44)
     if tag == "ObjectIdentifier":
         return enc_oid((1, 3, 6, 1, tok))
+    if tag == "ObjectIdentifierRaw":          # an OID value given by its arcs
+        return enc_oid(tuple(tok))
     if tag == "IpAddress":
         return enc_str(bytes([10, 0, (tok >> 8) & 255, tok & 255]), 0x40)
     if tag == "Counter":
